@@ -1,6 +1,7 @@
 package main
 
 import (
+	"fmt"
 	"net/http"
 	"net/url"
 	"regexp"
@@ -30,6 +31,14 @@ func vfC13List(s string) ([]string, bool) {
 //	url <hex>                         url.Parse view + every client's verdicts           ->
 //	    <err> <scheme> <hostname> <rawquery> <path> {<name>=<A|R|E><cors>:<re verdicts>} g<generic cors>
 //	auth <client id> <hex>            POST /idp/oauth2/authorize with that redirect_uri  -> <status> <hex Location>
+//	load                              write every client given so far into openid_connect_idp.clients of a
+//	                                  configuration FILE, read it with the real loadVerifyConfigFile, unseal
+//	                                  -> loaded {<name>:<d|D><p|P>}  (capital = effective list differs from the written one)
+//	                                  afterwards every url line also carries L<name>=<A|R|E><cors> … Lg<generic cors>
+//	                                  taken on the loader-built state
+//	lauth <client id> <hex>           auth on the loader-built state
+//
+// The regexp verdicts reported are those of the patterns as WRITTEN in the cfg op, never of what a state holds.
 func TestVerifC13(t *testing.T) {
 	io := vfOpen(t)
 	defer io.close()
@@ -39,6 +48,51 @@ func TestVerifC13(t *testing.T) {
 	state.HostIdentity = "localhost"
 	cookie := vfAuthCookie(t, state, "username", AuthTypePassword)
 	var names []string
+	written := map[string][2][]string{} // name -> (domains, patterns) as the operator wrote them
+	var lstate *RuntimeState            // built by the real loader from a configuration file
+	var lcookie *http.Cookie
+	verdictOf := func(st *RuntimeState, name, s string, u *url.URL) string {
+		client, err := st.idpOpenIDCGetClientConfig(name)
+		if err != nil {
+			return "?0"
+		}
+		verdict := "R"
+		okRedirect, parsed, err := client.CanRedirectToURL(s)
+		if err != nil {
+			verdict = "E"
+		} else if okRedirect {
+			verdict = "A"
+			// the *url.URL handed back must be the one the decision was taken on
+			if parsed == nil || u == nil || parsed.String() != u.String() {
+				verdict = "A!"
+			}
+		}
+		cors, err := client.CorsOriginAllowed(s)
+		if err != nil {
+			cors = false
+		}
+		return verdict + vfBool(cors)
+	}
+	authorize := func(st *RuntimeState, ck *http.Cookie, clientID, s string) string {
+		form := url.Values{}
+		form.Add("scope", "openid")
+		form.Add("response_type", "code")
+		form.Add("client_id", clientID)
+		form.Add("redirect_uri", s)
+		form.Add("nonce", "123456789")
+		form.Add("state", "this is my state")
+		req, err := http.NewRequest("POST", idpOpenIDCAuthorizationPath, strings.NewReader(form.Encode()))
+		if err != nil {
+			t.Fatal(err)
+		}
+		req.Header.Add("Content-Type", "application/x-www-form-urlencoded")
+		req.AddCookie(ck)
+		rr, p := vfServe(st.idpOpenIDCAuthorizationHandler, req)
+		if p != nil {
+			return "PANIC -"
+		}
+		return fmt.Sprintf("%d %s", rr.Code, vfHex(rr.Header().Get("Location")))
+	}
 	for _, line := range io.ops {
 		f := strings.Fields(line)
 		switch {
@@ -52,7 +106,56 @@ func TestVerifC13(t *testing.T) {
 			state.Config.OpenIDConnectIDP.Client = append(state.Config.OpenIDConnectIDP.Client,
 				OpenIDConnectClientConfig{ClientID: f[1], AllowedRedirectDomains: doms, AllowedRedirectURLRE: pats})
 			names = append(names, f[1])
+			written[f[1]] = [2][]string{doms, pats}
 			io.emit("ok")
+		case len(f) == 1 && f[0] == "load":
+			loader, err := vfConfigLoader(t)
+			if err != nil {
+				io.emit("load-error %s", strings.Join(strings.Fields(err.Error()), "_"))
+				continue
+			}
+			clients := []interface{}{}
+			for _, name := range names {
+				doms, pats := []interface{}{}, []interface{}{}
+				for _, d := range written[name][0] {
+					doms = append(doms, d)
+				}
+				for _, p := range written[name][1] {
+					pats = append(pats, p)
+				}
+				clients = append(clients, map[interface{}]interface{}{"client_id": name, "client_secret": "secret-" + name,
+					"allowed_redirect_domains": doms, "allowed_redirect_url_re": pats})
+			}
+			st, err := loader.load(map[string]interface{}{
+				"openid_connect_idp.clients":              clients,
+				"openid_connect_idp.default_email_domain": "example.com",
+				"base.allowed_auth_backends_for_webui":    []interface{}{"password"},
+			}, true)
+			if err != nil {
+				io.emit("load-error %s", strings.Join(strings.Fields(err.Error()), "_"))
+				continue
+			}
+			lstate = st
+			lcookie = vfAuthCookie(t, lstate, "username", AuthTypePassword)
+			out := []string{"loaded"}
+			for _, name := range names {
+				eff := "?"
+				if c, err := lstate.idpOpenIDCGetClientConfig(name); err == nil {
+					eff = "d"
+					if strings.Join(c.AllowedRedirectDomains, "\x00") != strings.Join(written[name][0], "\x00") ||
+						len(c.AllowedRedirectDomains) != len(written[name][0]) {
+						eff = "D"
+					}
+					if strings.Join(c.AllowedRedirectURLRE, "\x00") != strings.Join(written[name][1], "\x00") ||
+						len(c.AllowedRedirectURLRE) != len(written[name][1]) {
+						eff += "P"
+					} else {
+						eff += "p"
+					}
+				}
+				out = append(out, name+":"+eff)
+			}
+			io.emit("%s", strings.Join(out, " "))
 		case len(f) == 2 && f[0] == "url":
 			s, ok := vfUnhex(f[1])
 			if !ok {
@@ -67,28 +170,8 @@ func TestVerifC13(t *testing.T) {
 				out = append(out, "0 "+vfHex(u.Scheme)+" "+vfHex(u.Hostname())+" "+vfHex(u.RawQuery)+" "+vfHex(u.Path))
 			}
 			for _, name := range names {
-				client, err := state.idpOpenIDCGetClientConfig(name)
-				if err != nil {
-					out = append(out, name+"=?")
-					continue
-				}
-				verdict := "R"
-				okRedirect, parsed, err := client.CanRedirectToURL(s)
-				if err != nil {
-					verdict = "E"
-				} else if okRedirect {
-					verdict = "A"
-					// the *url.URL handed back must be the one the decision was taken on
-					if parsed == nil || u == nil || parsed.String() != u.String() {
-						verdict = "A!"
-					}
-				}
-				cors, err := client.CorsOriginAllowed(s)
-				if err != nil {
-					cors = false
-				}
 				res := ""
-				for _, re := range client.AllowedRedirectURLRE {
+				for _, re := range written[name][1] {
 					m, err := regexp.MatchString(re, s)
 					switch {
 					case err != nil:
@@ -102,39 +185,37 @@ func TestVerifC13(t *testing.T) {
 				if res == "" {
 					res = "."
 				}
-				out = append(out, name+"="+verdict+vfBool(cors)+":"+res)
+				out = append(out, name+"="+verdictOf(state, name, s, u)+":"+res)
 			}
 			g, err := state.idpOpenIDCGenericIsCorsOriginAllowed(s)
 			if err != nil {
 				g = false
 			}
 			out = append(out, "g"+vfBool(g))
+			if lstate != nil {
+				for _, name := range names {
+					out = append(out, "L"+name+"="+verdictOf(lstate, name, s, u))
+				}
+				lg, err := lstate.idpOpenIDCGenericIsCorsOriginAllowed(s)
+				if err != nil {
+					lg = false
+				}
+				out = append(out, "Lg"+vfBool(lg))
+			}
 			io.emit("%s", strings.Join(out, " "))
-		case len(f) == 3 && f[0] == "auth":
+		case len(f) == 3 && (f[0] == "auth" || f[0] == "lauth"):
 			s, ok := vfUnhex(f[2])
 			if !ok {
 				io.emit("bad-op")
 				continue
 			}
-			form := url.Values{}
-			form.Add("scope", "openid")
-			form.Add("response_type", "code")
-			form.Add("client_id", f[1])
-			form.Add("redirect_uri", s)
-			form.Add("nonce", "123456789")
-			form.Add("state", "this is my state")
-			req, err := http.NewRequest("POST", idpOpenIDCAuthorizationPath, strings.NewReader(form.Encode()))
-			if err != nil {
-				t.Fatal(err)
+			if f[0] == "auth" {
+				io.emit("%s", authorize(state, cookie, f[1], s))
+			} else if lstate == nil {
+				io.emit("not-loaded -")
+			} else {
+				io.emit("%s", authorize(lstate, lcookie, f[1], s))
 			}
-			req.Header.Add("Content-Type", "application/x-www-form-urlencoded")
-			req.AddCookie(cookie)
-			rr, p := vfServe(state.idpOpenIDCAuthorizationHandler, req)
-			if p != nil {
-				io.emit("PANIC -")
-				continue
-			}
-			io.emit("%d %s", rr.Code, vfHex(rr.Header().Get("Location")))
 		default:
 			io.emit("bad-op")
 		}
